@@ -71,8 +71,44 @@ fn dictionary(c: &mut dyn Choices, n: usize) -> Vec<(Ev, String)> {
                     _ => format!("{}(1,2,{})+{}(10,20,30)", agg, inner, agg),
                 }
             }
+            // long aggregate lists with numerically equal values in different spellings at the middle ranks (selection
+            // algorithms with their own state decide which representation comes out)
+            6 if ev != Ev::Cpx => {
+                let agg = ["med", "median", "min", "max", "avg"][c.below(5) as usize];
+                let vals: &[&str] = if ev == Ev::I64 { &["9", "3", "12", "9", "15", "1", "18", "9", "7"] } else { &["9", "9.0", "9.00", "3", "3.0", "12", "7.5", "7.50", "15", "1", "18", "9.000", "0", "0.0", "-0.0"] };
+                let n = 17 + c.below(14) as usize;
+                let list: Vec<&str> = (0..n).map(|_| vals[c.below(vals.len() as u32) as usize]).collect();
+                format!("{}({})", agg, list.join(","))
+            }
+            // short in characters, long in bytes: sums of terms written with π, superscripts, ° and ⌊⌋⌈⌉ (about 24..32
+            // characters, 30..50 bytes)
+            7 => {
+                let mut terms: Vec<&str> = vec!["2²", "3³", "7²", "(1+2)²", "5³", "2²³"];
+                if ev != Ev::I64 {
+                    terms.extend(["π²", "π³", "sin(π)²", "cos(π/4)²", "e²", "π/2"]);
+                }
+                if vocab::has_deg(ev) {
+                    terms.extend(["π°", "90°", "45°²"]);
+                }
+                if vocab::has_floor_brackets(ev) {
+                    terms.extend(["⌊π⌋", "⌈2.5⌉", "⌊2.5⌋²"]);
+                }
+                if ev == Ev::Cpx {
+                    terms.extend(["(1+2i)²", "i³"]);
+                }
+                let target = 22 + c.below(9) as usize;
+                let mut t = String::from(terms[c.below(terms.len() as u32) as usize]);
+                while t.chars().count() < target {
+                    t.push(['+', '-', '*'][c.below(3) as usize]);
+                    t.push_str(terms[c.below(terms.len() as u32) as usize]);
+                }
+                t.push_str(["+@", "-@", "+1", "*2", ""][c.below(5) as usize]);
+                t
+            }
             _ => s,
         };
+        // non-ASCII spellings (byte length and character count differ: fixed-size keys, truncation)
+        let s = if c.below(4) == 0 { s.replace("pi", "π").replace("^2", "²").replace("^3", "³") } else { s };
         // whitespace anywhere (it is stripped before lexing): copies of the stripped text are another place for state
         let s = if c.below(3) == 0 {
             let mut cs: Vec<char> = s.chars().collect();
@@ -132,7 +168,7 @@ impl Prop for C16Prop {
         "C16"
     }
     fn rule(&self) -> String {
-        "Cases are call histories: 200..1000 (quick) / up to 5000 (thorough) calls (evaluator, expression, placeholder) drawn from a per-history dictionary of 12..60 expressions (well-formed with and without @, error-producing, malformed for the parser and for the lexer (1.2.3, 1..5, stray characters), aggregates around failing arguments and around nested aggregates, whitespace of several kinds sprinkled into a third of the entries, plus 1..3 argument sweeps: one function - Lambert W weighted - at 3..6 nearby arguments) so that keys repeat, each reused with changing placeholders and interleaved across all five evaluators; the whole history is one generated value (a choice sequence) and shrinks as one. Oracle (no-state model): every occurrence of a key must return, bit for bit, the outcome of its isolated first-time evaluation, computed by a fresh child process making exactly that one call. The history is run sequentially in-process, then replayed concurrently by 16 threads each starting at a different rotation, then every thread evaluates the deepest inputs 256 characters allow at the same time as the others (process-wide counters), then hammers one expression with different placeholders. One call in five is followed by an immediate repeat of the same expression with a placeholder pair that compares equal but differs (0.0/-0.0, 2/2.00, Integer 3/Float 3.0). Sub-check after-failures: for every evaluator, every kind of failing call (lexer, parser, evaluation error under every operator and function form) is made 1100 times in a row and a set of plain expressions must then answer as in a fresh process. non-trivial = an occurrence whose expression occurred earlier in the history with a different placeholder or evaluator, or that directly follows an Err-producing call; distinct by (key, predecessor key). evaluations counts library calls (sequential + concurrent + child processes).".into()
+        "Cases are call histories: 200..1000 (quick) / up to 5000 (thorough) calls (evaluator, expression, placeholder) drawn from a per-history dictionary of 12..60 expressions (well-formed with and without @, error-producing, malformed for the parser and for the lexer (1.2.3, 1..5, stray characters), aggregates around failing arguments and around nested aggregates, whitespace of several kinds sprinkled into a third of the entries, non-ASCII spellings (π, ², ³) in a quarter, long aggregate lists with equal values in different spellings, one call in six followed by a same-length sibling of its text (one character changed near the end) under the same placeholder, plus 1..3 argument sweeps: one function - Lambert W weighted - at 3..6 nearby arguments) so that keys repeat, each reused with changing placeholders and interleaved across all five evaluators; the whole history is one generated value (a choice sequence) and shrinks as one. Oracle (no-state model): every occurrence of a key must return, bit for bit, the outcome of its isolated first-time evaluation, computed by a fresh child process making exactly that one call. The history is run sequentially in-process, then replayed concurrently by 16 threads each starting at a different rotation, then every thread evaluates the deepest inputs 256 characters allow at the same time as the others (process-wide counters), then hammers one expression with different placeholders. One call in five is followed by an immediate repeat of the same expression with a placeholder pair that compares equal but differs (0.0/-0.0, 2/2.00, Integer 3/Float 3.0). Sub-check after-failures: for every evaluator, every kind of failing call (lexer, parser, evaluation error under every operator and function form) is made 1100 times in a row and a set of plain expressions must then answer as in a fresh process. non-trivial = an occurrence whose expression occurred earlier in the history with a different placeholder or evaluator, or that directly follows an Err-producing call; distinct by (key, predecessor key). evaluations counts library calls (sequential + concurrent + child processes).".into()
     }
     fn assumptions(&self) -> Vec<String> {
         vec!["thread interleavings are whatever the OS produces under 16-way contention (not enumerated): the crate uses no synchronisation primitive a schedule explorer could intercept".into()]
@@ -165,6 +201,23 @@ impl Prop for C16Prop {
             let pool = ph_pool(*ev);
             let ph = &pool[(c.below(6) as usize * 5) % pool.len()];
             hist.push(format!("{}|{}|{}", ev.name(), ph.enc(), ex));
+            if c.below(6) == 0 {
+                // right away a sibling of the same text: same length, same beginning, one character changed near the end,
+                // same placeholder (keys built from a prefix, a length or a weak hash of the text)
+                let mut cs: Vec<char> = ex.chars().collect();
+                if let Some(pos) = cs.iter().rposition(|ch| "0123456789+-*/".contains(*ch)) {
+                    cs[pos] = match cs[pos] {
+                        '+' => '-',
+                        '-' => '+',
+                        '*' => '/',
+                        '/' => '*',
+                        d => (((d as u8 - b'0') + 1) % 10 + b'0') as char,
+                    };
+                    let sib: String = cs.into_iter().collect();
+                    hist.push(format!("{}|{}|{}", ev.name(), ph.enc(), sib));
+                    hist.push(format!("{}|{}|{}", ev.name(), ph.enc(), ex));
+                }
+            }
             if c.below(5) == 4 {
                 // immediately the same expression again with a placeholder that compares equal but is another value
                 // (other sign of zero, other scale, other variant): the classic way a memo keyed with == goes wrong
